@@ -10,7 +10,9 @@ from common.framework import Failure, ImplError, Stream
 
 ID = 'C14'
 LEAN_MODULES = ['Proofs.C14']
-REQUIRED = ['C14.cycleStat_spec', 'C14.cycle_samples_exact', 'C14.getCycleStat_cycles', 'C14.project_spec', 'C14.getCycleStat_samples', 'C14.linInterp_affine', 'C14.alignCycle_affine', 'C14.phaseAlign_affine', 'C14.phaseAlign_returns_iff', 'C14.alignCycle_one_sample', 'C14.digitize_spec', 'C14.binByPhase_spec', 'C14.binByPhaseW_spec']
+REQUIRED = ['C14.cycleStat_spec', 'C14.cycle_samples_exact', 'C14.getCycleStat_cycles', 'C14.project_spec', 'C14.getCycleStat_samples', 'C14.linInterp_affine', 'C14.alignCycle_affine', 'C14.phaseAlign_affine', 'C14.phaseAlign_returns_iff', 'C14.alignCycle_one_sample', 'C14.digitize_spec', 'C14.binByPhase_spec', 'C14.binByPhaseW_spec',
+            'C14.sample_on_edge_in_bin_above', 'C14.first_edge_sample_in_first_bin', 'C14.alignCycle_affine_any_sampling',
+            'C14.phaseAlign_default_cycles']
 TRUSTED = ['bin centres / edges are taken from the real emd.spectra.define_hist_bins on the same run and handed to the model as data',
            'default cycles of phase_align are taken from the real get_cycle_vector(ip, return_good=False) (property C12) and handed to the model',
            'float results are compared with the exact rational model within 1e-9*max(1, |input|_inf); non-finite floats (NaN, inf) are one class',
@@ -650,6 +652,12 @@ class Align(Stream):
         if isinstance(out, ImplError) or case.get('kind', 'linear') != 'linear':
             return []          # spline kinds are library numerics: instance check only
         ip, x, cv = self._data(case)
+        if case['cycles'] == 'default':
+            # cycles=None: the MODEL detects the cycles of the phase supplied (CycleStats.phaseAlignDefault, theorem
+            # C14.phaseAlign_default_cycles); the harness's own detection out['cv'] only serves the scipy reference below
+            e = np.pi / 12
+            return [proto.op('PALIGND', {'dstep': 1.5 * np.pi, 'edge': e, 'twopi': TWO_PI, 'endlo': TWO_PI - e},
+                             [ip, x, out['bins']])]
         return [proto.op('PALIGN', {}, [ip, x, out['cv'], out['bins']])]
 
     def compare(self, case, out, results):
